@@ -375,6 +375,25 @@ PROPS["C14"] = {
                     "Go `int` is 64-bit"],
 }
 
+PROPS["C01"] = {
+    "lean_modules": ["AvroModel.Props.C01"],
+    "required_theorems": ["record_roundtrip", "two_records", "blocks_partition", "flush_leaves_nothing"],
+    "harness": [("E2E", "C01")],
+    "level_text": "Proof by layers: record_roundtrip (Codec.Read of what Codec.Write appended, followed by anything, delivers the written "
+                  "datum's value and the exact rest - write correctness composed with read correctness, for every codec tree, value and budget), "
+                  "the block layer (C09.refines: header ++ frames of a partition of the records, nothing lost/duplicated/reordered/split) and the "
+                  "container layer (C07.delivers: such a file delivers all records in order; destination zeroed per record). The three layers "
+                  "are proved separately over their models; their composition is exercised end to end on the real code: random struct types of "
+                  "the whole C01 domain (run-time built, writer assembled from the exported pieces exactly as encoder.go does) and static "
+                  "types through the real generic Encoder, all three codecs, block sizes 0..2^14, random flush patterns; delivered records "
+                  "must equal the model's ofAvro(toAvro v) (the documented normalisations) in number, order and value.",
+    "level_note": "Trusted: Lean kernel; the formal composition of the three layer models is not yet a single theorem (different block representations); differential tie per layer + end-to-end run.",
+    "rule": "Random struct types (bool, ints, floats, string, []byte, time.Time, null.*, slices, maps, pointers, nested structs, json/omitempty tags), "
+            "0-9 records per file with nulls following non-nulls, boundary values, NaN/Inf/-0, nil/empty collections, nil pointers at every level.",
+    "trusted": CODEC_TRUST,
+}
+PROPS["C02"]["harness"] = [("WR2", "C02"), ("E2E", "C02")]
+
 NOT_APPLICABLE = {}
 
 PROPS["C15"] = {
